@@ -96,7 +96,7 @@ def cases(tier, seed):
     quick = tier == "quick"
     corpus = gen_mutate.corpus()
     # generated valid programs
-    n = 150 if quick else 6000
+    n = 300 if quick else 6000
     for i in range(n):
         prog, _cov, prng = c01.make_program(seed + 1000, i)
         style = gen_prog.Style(rng=prng, paren="min")
